@@ -460,8 +460,9 @@ def sigDiff (a b : Module) : List String :=
 def sameSig (a b : Module) : Bool := decide (sigOf a = sigOf b)
 
 /-! ### model of the emitter's naming functions (rtl_generation.py:55-115, 157, 239-245, 52-53) -/
-/-- the words `isReservedVerilogKeyword` knows that are IEEE 1364-2005 keywords: everything except `design`, `uwire` -/
-def repoMissing : List String := ["design", "uwire"]
+/-- HISTORICAL (before /repo commit a15e5f4): the two IEEE 1364-2005 keywords `isReservedVerilogKeyword` did not know.
+    Only used by the labelled pre-fix counterexample in Props/C03.lean; the model of the current code is `isReservedRepo`. -/
+def preFixMissing : List String := ["design", "uwire"]
 
 /-- SystemVerilog-only words the emitter also prefixes (harmless for 1364-2005) -/
 def repoSV : List String := [
@@ -477,7 +478,13 @@ def repoSV : List String := [
   "this","throughout","timeprecision","timeunit","type","typedef","union","unique","unique0","until","until_with",
   "untypted","var","virtual","void","wait_order","weak","wildcard","with","within"]
 
-def isReservedRepo (n : String) : Bool := (isKeyword n && !decide (n ∈ repoMissing)) || decide (n ∈ repoSV)
+/-- `isReservedVerilogKeyword` as it is today: reserved95 ++ reserved2001 (= the 124 IEEE 1364-2005 words, checked against
+    the source on every run by the harness) ++ reservedSV -/
+def isReservedRepo (n : String) : Bool := isKeyword n || decide (n ∈ repoSV)
+
+/-- the table before a15e5f4 (finding C03-keyword-table, fixed) -/
+def isReservedRepoPreFix (n : String) : Bool := (isKeyword n && !decide (n ∈ preFixMissing)) || decide (n ∈ repoSV)
+def getValidVerilogNamePreFix (n : String) : String := if isReservedRepoPreFix n then "reserved_" ++ n else n
 
 def getValidVerilogName (n : String) : String := if isReservedRepo n then "reserved_" ++ n else n
 def getPortName (n : String) : String := getValidVerilogName n
